@@ -10,6 +10,7 @@ import Khttp.Driver.Loop
 import Khttp.Driver.Body
 import Khttp.Driver.Conn
 import Khttp.Driver.Mem
+import Khttp.Driver.Accept
 import Khttp.Model.Status
 open Khttp Khttp.Driver
 
@@ -31,6 +32,7 @@ def answer (line : String) : String :=
     | "BODY" => bodyLine arg
     | "CONN" => connLine arg
     | "MEMMODEL" => memLine arg
+    | "ACCEPT" => acceptLine arg
     | "DATECACHE" => dateCacheLine arg
     | "POOLTRACE" => poolTraceLine arg
     | "STATUS" =>
